@@ -241,7 +241,7 @@ def compare(res1: list, res2: list, inputs: dict, stats: Stats, extra: list | No
                     continue
                 st, m = _solve(base, stats) if (both_paths or base) else ("sat", None)
                 if st == "sat":
-                    return {"verdict": "cex", "kind": "error-behaviour",
+                    return {"verdict": "cex", "kind": "error-behaviour", "first_fails": bool(r1["bottom"]),
                             "detail": f"one side fails ({r1['bottom'] or r2['bottom']}) where the other returns",
                             "inputs": model_to_inputs(m, inputs) if m is not None else None, "paths": verdict["paths"]}
                 if st == "unknown":
